@@ -1,6 +1,7 @@
 import InfluxQL.Lemmas.ReduceEval
 import InfluxQL.Lemmas.ReduceIdem
 import InfluxQL.Model.TimeLit
+import InfluxQL.Gen.TimeLit
 /-
 C09 — constant folding never changes the value of an expression.
 
@@ -338,6 +339,28 @@ theorem toTime_examples :
     toTimeLiteral 0 ['2','0','0','0','-','0','2','-','3','0'] = none ∧
     toTimeLiteral 0 ['1','9','7','0','-','0','1','-','0','1'] = some 0 := by
   decide
+
+/-- Obligation on the facts regenerated from parser.go / ast.go on every run: the date reader of
+`Model/TimeLit.lean` is written against exactly these two layouts and these two patterns (the
+extractor also checks that `IsTimeLiteral`, `ToTimeLiteral`, `isDateString` and `isDateTimeString`
+still have the bodies the model mirrors). -/
+theorem gen_date_formats :
+    Gen.dateFormat = ['2','0','0','6','-','0','1','-','0','2'] ∧
+    Gen.dateTimeFormat = ['2','0','0','6','-','0','1','-','0','2',' ','1','5',':','0','4',':','0','5',
+      '.','9','9','9','9','9','9'] ∧
+    Gen.dateStringPattern =
+      ['^','\\','d','{','4','}','-','\\','d','{','2','}','-','\\','d','{','2','}','$'] ∧
+    Gen.dateTimeStringPattern =
+      ['^','\\','d','{','4','}','-','\\','d','{','2','}','-','\\','d','{','2','}','.','+'] := by
+  decide
+
+/-- Obligation on the token table regenerated from token.go: the operators `Eval`/`Reduce`
+distinguish (`BinOp.ofToken t ≠ other`) are exactly the tokens between `operatorBeg` and
+`operatorEnd`, and no two of them are identified. -/
+theorem gen_operator_tokens :
+    (∀ t ∈ Token.all, (BinOp.ofToken t != .other) = t.isOperator) ∧
+    (∀ t ∈ Token.all, ∀ u ∈ Token.all, t.isOperator = true → BinOp.ofToken t = BinOp.ofToken u → t = u) := by
+  decide +kernel
 
 /-! ### Where the code violates the full statement -/
 
